@@ -357,7 +357,7 @@ func reportFirstDiff(w *World, r *Report, fns map[string]*ssa.Function) {
 				switch {
 				case !ok || !iv.FirstConst || iv.First != 0 || iv.Step != 1 || !fa.Lin(t.Idx).Eq(linAtom(fa.VN(iv.Phi))):
 					bad = "the byte loop does not visit s[0], s[1], ..."
-				case !iv.HasN || !iv.N.Eq(lenS):
+				case !iv.HasN || !(iv.N.Eq(lenS) || iv.N.Eq(fa.lenOf(t.Cont, 0)) && first8View(fa, fn, t.Cont)):
 					bad = "the byte loop does not stop at len(s) exactly"
 				case t.ShiftVal == nil || !fa.Lin(t.ShiftVal).Eq(linConst(56).addScaled(fa.Lin(t.Idx), -8)):
 					bad = "byte i of the byte loop is not shifted by 56-8i (big-endian)"
@@ -466,6 +466,7 @@ func reportFirstDiff(w *World, r *Report, fns map[string]*ssa.Function) {
 			}
 			x, y, ok := asBin(lz.Common().Args[0], token.XOR)
 			var iv *LoopIV
+			var offLin Lin
 			if !ok {
 				bad = "LeadingZeros argument is not au ^ bu"
 			} else {
@@ -492,10 +493,25 @@ func reportFirstDiff(w *World, r *Report, fns map[string]*ssa.Function) {
 						bad = "the two keys are chunked at different offsets"
 					}
 					v, ok := fa.InductionOf(idxs[0], lz.Block())
+					if !ok {
+						// the offset as a multiple of a chunk counter: a[w*8:] for w = 0, 1, 2, ...
+						if ol := fa.Lin(idxs[0]); len(ol.T) == 1 && ol.K == 0 {
+							for atom, coef := range ol.T {
+								if p, isPhi := fa.AtomValue(atom).(*ssa.Phi); isPhi && coef >= 1 {
+									if v2, ok2 := fa.InductionOf(p, lz.Block()); ok2 {
+										cp := *v2
+										cp.Step, cp.First = v2.Step*coef, v2.First*coef
+										v, ok = &cp, true
+									}
+								}
+							}
+						}
+					}
 					if !ok || !v.FirstConst || v.First != 0 {
 						bad = "chunk offset does not start at 0"
 					} else {
 						iv = v
+						offLin = fa.Lin(idxs[0])
 						if v.Step < 1 || v.Step > 8 {
 							bad = fmt.Sprintf("chunk offset advances by %d bytes but a chunk holds 8: bytes between chunks are never compared", v.Step)
 						}
@@ -520,7 +536,7 @@ func reportFirstDiff(w *World, r *Report, fns map[string]*ssa.Function) {
 						// 8*i + lz
 						rest := L.clone()
 						delete(rest.T, lzAtom)
-						if L.T[lzAtom] != 1 || iv == nil || !rest.Eq(linConst(0).addScaled(fa.Lin(iv.Phi), 8)) {
+						if L.T[lzAtom] != 1 || iv == nil || !rest.Eq(linConst(0).addScaled(offLin, 8)) {
 							bad = "difference position is " + L.String() + ", expected 8*i + LeadingZeros"
 						}
 						// guarded by lz < 64 and pos < minl
@@ -634,4 +650,51 @@ func reportFirstDiff(w *World, r *Report, fns map[string]*ssa.Function) {
 		}
 		r.Check(bad == "", "R-PAIRS", n, w.Pos(fn.Pos()), bad, "ds[i] = sFirstDiffBit(keys[i], keys[i+1]), i in [0, len(keys)-1)")
 	}
+}
+
+// first8View: v is the string parameter itself where it is known to have at most 8 bytes, or its prefix s[:k] with a
+// constant k <= 8 (or a merge of such alternatives): the bytes get64Bits has to look at, and few enough for the shift
+// 56-8i to stay in range.
+func first8View(fa *FA, fn *ssa.Function, v ssa.Value) bool {
+	lenS := linAtom("call:builtin len(p0)")
+	var ok1 func(x ssa.Value, at *ssa.BasicBlock, self []Cond, depth int) bool
+	ok1 = func(x ssa.Value, at *ssa.BasicBlock, self []Cond, depth int) bool {
+		if depth > 3 {
+			return false
+		}
+		switch y := x.(type) {
+		case *ssa.Parameter:
+			if len(fn.Params) == 0 || y != fn.Params[0] {
+				return false
+			}
+			bd := fa.BoundsAt(at, lenS)
+			if b2 := fa.boundsFrom(self, lenS); b2.HasHi {
+				bd.upper(b2.Hi, "")
+			}
+			return bd.HasHi && bd.Hi <= 8
+		case *ssa.Slice:
+			if y.Low != nil || y.High == nil {
+				return false
+			}
+			k, isK := constInt64(y.High)
+			return isK && k <= 8 && y.X == ssa.Value(fn.Params[0])
+		case *ssa.Phi:
+			if isLoopHeaderPhi(y) {
+				return false
+			}
+			for i, e := range y.Edges {
+				pred := y.Block().Preds[i]
+				if !ok1(e, pred, selfCond(pred, y.Block()), depth+1) {
+					return false
+				}
+			}
+			return true
+		}
+		return false
+	}
+	blk := fn.Blocks[0]
+	if ins, ok := v.(ssa.Instruction); ok {
+		blk = ins.Block()
+	}
+	return ok1(v, blk, nil, 0)
 }
